@@ -217,20 +217,23 @@ static void
 run_case(long idx, void *ctx)
 {
     (void)ctx;
-    int big = idx >= (long)NKINDS * NOPTS;
-    int kind, oi;
+    /* idx encodes (input kind, first option set, second option set); the quick tier pairs every first set with one second set,
+       the thorough tier runs all pairs */
+    long nsmall = (long)NKINDS * NOPTS * NOPTS;
+    int  big    = idx >= nsmall;
+    int  kind, oi, oj;
     const optset_t *o, *o2;
     if (!big) {
-        kind = (int)(idx / NOPTS), oi = (int)(idx % NOPTS);
-        o = &OPTS[oi], o2 = &OPTS[(oi + 5) % NOPTS];
+        kind = (int)(idx / (NOPTS * NOPTS)), oi = (int)(idx / NOPTS % NOPTS), oj = (int)(idx % NOPTS);
+        o = &OPTS[oi], o2 = &OPTS[oj];
     }
     else {
-        long j = idx - (long)NKINDS * NOPTS;
-        kind = 100 + (int)(j / 4), oi = (int)(j % 4);
-        o = &BIGOPTS[oi], o2 = &BIGOPTS[(oi + 1) % 4];
+        long j = idx - nsmall;
+        kind = 100 + (int)(j / 16), oi = (int)(j / 4 % 4), oj = (int)(j % 4);
+        o = &BIGOPTS[oi], o2 = &BIGOPTS[oj];
     }
-    int cfg[2] = {kind, oi};
-    mc_set_config(cfg, 2, "input=%d options=%d", kind, oi);
+    int cfg[3] = {kind, oi, oj};
+    mc_set_config(cfg, 3, "input=%d options=%d second=%d", kind, oi, oj);
     snprintf(g_case, sizeof g_case, "input kind %d, hrepack %s", kind, o->desc);
     mc_set_case("%s", g_case);
     tc_workdir("C18", idx);
@@ -310,26 +313,45 @@ run_case(long idx, void *ctx)
     mc_count("cases_run", 1);
 }
 
+static void
+run_listed(long i, void *ctx)
+{
+    run_case(((long *)ctx)[i], NULL);
+}
+
 int
 C18_main(const char *tier, const char *replay)
 {
-    int  thorough = strcmp(tier, "thorough") == 0;
-    long n        = (long)NKINDS * NOPTS + (thorough ? NBIG * 4 : 4);
+    int thorough = strcmp(tier, "thorough") == 0;
     if (replay) {
         int   cfg[32], ncfg, nops;
         mc_op ops[MC_MAXDEPTH];
         if (mc_load_replay(replay, cfg, &ncfg, ops, &nops, MC_MAXDEPTH) || ncfg < 2)
             return 2;
-        long idx = cfg[0] >= 100 ? (long)NKINDS * NOPTS + (cfg[0] - 100) * 4 + cfg[1] : (long)cfg[0] * NOPTS + cfg[1];
+        int  oj  = ncfg >= 3 ? cfg[2] : (cfg[0] >= 100 ? (cfg[1] + 1) % 4 : (cfg[1] + 5) % NOPTS);
+        long idx = cfg[0] >= 100 ? (long)NKINDS * NOPTS * NOPTS + (cfg[0] - 100) * 16 + cfg[1] * 4 + oj : ((long)cfg[0] * NOPTS + cfg[1]) * NOPTS + oj;
         run_case(idx, NULL);
         printf("replay C18: %s (files kept in %s)\n", g_case, tc_work);
         return 0;
     }
+    /* the list of cases of this tier */
+    static long list[4096];
+    long        n = 0;
+    for (int k = 0; k < NKINDS; k++)
+        for (int i = 0; i < NOPTS; i++)
+            for (int j = 0; j < NOPTS; j++)
+                if (thorough || j == (i + 5) % NOPTS)
+                    list[n++] = ((long)k * NOPTS + i) * NOPTS + j;
+    for (int k = 0; k < (thorough ? NBIG : 1); k++)
+        for (int i = 0; i < 4; i++)
+            for (int j = 0; j < 4; j++)
+                if (thorough || j == (i + 1) % 4)
+                    list[n++] = (long)NKINDS * NOPTS * NOPTS + k * 16 + i * 4 + j;
     mc_rule("every generated input kind (%d kinds + %d large data sets that need strip-mined copying) x every option set (%d, incl. option file, thresholds, object lists, "
-            "un-chunking/un-compressing); each output repacked again with another option set",
-            NKINDS, thorough ? NBIG : 1, NOPTS);
-    mc_round_begin("all inputs x all option sets");
-    mc_foreach(n, run_case, NULL, 1, 600);
+            "un-chunking/un-compressing); each output repacked again with %s",
+            NKINDS, thorough ? NBIG : 1, NOPTS, thorough ? "EVERY option set (all ordered pairs)" : "one other option set");
+    mc_round_begin(thorough ? "all inputs x all ordered pairs of option sets" : "all inputs x all option sets (+ one second pass each)");
+    mc_foreach(n, run_listed, list, 1, 600);
     mc_round_end();
     return 0;
 }
